@@ -2183,22 +2183,38 @@ def _part_l(task, rec):
 
 
 def l_tasks(tier):
-    n = l_bound(tier)
-    names = [MODEL_NAME, 'm~00', 'my model', 'a.b'] if tier == 'quick' else list(dict.fromkeys([MODEL_NAME] + W_NAMES))
+    """Every entry point reaches the full bound N with at least two names and the plain pattern; the remaining
+    (name, extension, pattern) combinations of the thorough tier run to the quick bound (the length of the history
+    and the spelling of the name do not interact beyond the first numbered names)."""
+    n, nq = l_bound(tier), l_bound('quick')
+    quick = tier == 'quick'
+    names = list(dict.fromkeys([MODEL_NAME, 'm~00', 'my model', 'a.b', 'run.1'] if quick else [MODEL_NAME, 'm~00'] + W_NAMES))
+    if quick:
+        names = names[:4]
     t = []
-    for ext in ('html', 'pickle', 'tex', 'F12', 'dat'):
-        for pattern in L_PATTERNS:
-            for name in (names if pattern == 'files' and ext in ('html', 'pickle') else
-                         names[:4] if pattern == 'files' else names[:2]):
-                t.append(dict(part='L', entry='name', name=name, ext=ext, pattern=pattern, n=n))
-    for entry in L_CHEAP[1:]:
+
+    def add(entry, name, ext, pattern, bound, **kw):
+        t.append(dict(part='L', entry=entry, name=name, ext=ext, pattern=pattern, n=bound, **kw))
+
+    for entry in (['all'] + L_CHEAP[1:6] + L_CHEAP[7:]):
         for pattern in ('files', 'holes'):
-            for name in (names[:2] if tier == 'quick' or pattern == 'holes' or entry == 'all' else names[:4]):
-                t.append(dict(part='L', entry=entry, name=name, ext='html', pattern=pattern, n=n))
+            for i, name in enumerate(names[:2]):
+                full = pattern == 'files' and (entry != 'all' or i == 0) or (pattern == 'holes' and i == 0 and entry != 'all')
+                add(entry, name, 'html', pattern, n if full else nq)
     for entry in L_COSTLY:
-        for pattern in (('files',) if tier == 'quick' else ('files', 'kinds')):
-            t.append(dict(part='L', entry=entry, name=MODEL_NAME, ext='pickle', pattern=pattern, n=n,
-                          thin=tier == 'quick' and entry == 'validate'))
+        for pattern in (('files',) if quick else ('files', 'kinds')):
+            add(entry, MODEL_NAME, 'pickle', pattern, n, thin=quick and entry == 'validate')
+    for ext in ('html', 'pickle', 'tex', 'F12', 'dat'):
+        main = ext in ('html', 'pickle')
+        for pattern in L_PATTERNS:
+            for i, name in enumerate(names if pattern == 'files' else names[:2]):
+                if pattern == 'files':
+                    full = i < (4 if main else 2)
+                else:
+                    full = main and i == 0
+                if not full and not main and i >= 4:
+                    continue
+                add('name', name, ext, pattern, n if full else nq)
     return t
 
 
@@ -2460,6 +2476,8 @@ def tasks(tier, seed):
                 continue
             t.append(dict(part='iii', how=how, **s))
             t.append(dict(part='i', how=how, **s))
+    # (L) long histories of one name in one directory
+    t.extend(l_tasks(tier))
     # (p) histories on one Parameters object
     ops = p_ops()
     for pre in itertools.product(ops, repeat=1 if tier == 'quick' else 2):
@@ -2473,8 +2491,6 @@ def tasks(tier, seed):
             else:
                 for first in W_OPS:
                     t.append(dict(part='w', name=name, root=root, depth=w_depth(tier), first=first))
-    # (L) long histories of one name in one directory
-    t.extend(l_tasks(tier))
     return t
 
 
